@@ -77,6 +77,10 @@ pub struct FileSpec {
     /// symbolic link to it: the file is in the directory only by way of the link
     #[serde(default)]
     pub via_symlink: bool,
+    /// the file name on disk when it is not valid UTF-8 (`name` is then its lossy spelling); such a
+    /// file can only be reached through its directory
+    #[serde(default)]
+    pub name_bytes: Option<Vec<u8>>,
 }
 
 #[derive(Clone, Debug, Serialize, Deserialize, PartialEq)]
@@ -374,7 +378,10 @@ pub fn lay_out(world: &World, v: &Variant) {
     let ws = r.join("ws");
     std::fs::create_dir_all(&ws).expect("create ws");
     for f in &v.files {
-        let path = ws.join(&f.name);
+        let path = match &f.name_bytes {
+            Some(b) => ws.join(<std::ffi::OsStr as std::os::unix::ffi::OsStrExt>::from_bytes(b)),
+            None => ws.join(&f.name),
+        };
         if let Some(parent) = path.parent() {
             let _ = std::fs::create_dir_all(parent);
         }
